@@ -24,6 +24,9 @@ CHECKS = {
  "C16": dict(tech="static analysis: blocking-operation audit, select-arm path queries, send/receive counting rules and guard must-pass queries on SSA",
    text="Structural necessary conditions decided exactly for their clause: the collector's only blocking operation is one select with a <-ctx.Done() arm that leaves the loop, reference clocks are queried only from spawned goroutines, the round's context is WithTimeout(cfg.SyncTimeout); ms[j]=m only under m.Error==nil && j!=len(ms) with j++ and j returned; every received result is counted exactly once, every worker sends exactly once and never closes, one worker per clock, the drain receives len(ms)-i times and is started on every exit; CAS 0->1 guard with panicking failure arm and deferred 1->0. Scheduling and real time are not decided.",
    ref="DESIGN.md §4 C16"),
+ "C06": dict(tech="static analysis: provenance of response/store fields, armed path queries (collision -> bump -> full rescan), recompute-after-store freshness rule, test-and-repair must-pass rules, listener pairing on SSA",
+   text="Structural necessary conditions decided exactly for their clause: reply field provenance in basic and interleaved arms and the arm's guard; a collision with a stored receive timestamp reaches the reply/store only through the +1 bump and a complete rescan from index 0; 64-bit forms are recomputed after every store to *rxt/*txt before use; rx<tx test-and-repair after each bump and before updateTXTimestamp touches the store; kernel transmit time replaces the stored one only when different, otherwise the exchange is removed; all item accesses rooted at tss[clientID]; listeners hand the same client id and receive time to both calls, id from the datagram source, kernel tx time iff read ok with expected id. Behaviour over histories is not decided.",
+   ref="DESIGN.md §4 C06"),
 }
 NA = {
  "C04": "all clauses are value arithmetic over time.Time/uint32 (truncation direction, era unfolding, order preservation); no structural or finite-domain clause; matching the constants would be a frozen-fragment proxy",
